@@ -171,10 +171,12 @@ def new_stack(series, file_order=None, meta_filter=None):
     files = series['files']
     order = file_order if file_order is not None else list(range(len(files)))
     dss = {}
+    st._verif_ids = {}
     with warnings.catch_warnings():
         warnings.simplefilter('ignore')
         for i in order:
             ds = dataset_of(series, files[i])
             dss[files[i]['id']] = ds
             st.add_dcm(ds)
+            st._verif_ids[id(st._files_info[-1][0])] = files[i]['id']
     return st, dss
